@@ -443,6 +443,7 @@ type FuncSpec struct {
 	Props     []string
 	Requires  []*Clause
 	Ensures   []*Clause
+	Defines   []*Clause // naming clauses: assumed at call sites, not checked (they only introduce a name for the result)
 	MayPanic  []*Clause // the function may panic only in states satisfying one of these (evaluated on entry)
 	Modifies  []*SExpr
 	HasMod    bool
@@ -556,7 +557,7 @@ func parseModifies(rest, where string) ([]*SExpr, error) {
 
 var specKeywords = map[string]bool{"func": true, "props": true, "requires": true, "ensures": true, "modifies": true,
 	"loop": true, "invariant": true, "decreases": true, "step": true, "spec": true, "axiom": true, "lemma": true, "trusted": true,
-	"pure": true, "end": true, "allocates": true, "maypanic": true, "ghost": true, "implements": true}
+	"pure": true, "end": true, "allocates": true, "maypanic": true, "ghost": true, "implements": true, "defines": true}
 
 // parseSpecFile reads one verif_contracts.go file.
 func parseSpecFile(path, pkg string) (*SpecFile, error) {
@@ -608,7 +609,7 @@ func parseSpecFile(path, pkg string) (*SpecFile, error) {
 		switch kw {
 		case "func":
 			var ftp []string
-			if strings.HasPrefix(rest, "type ") {
+			if strings.HasPrefix(rest, "type ") && !strings.HasPrefix(rest, "type func(") {
 				if k := strings.Index(rest, "("); k > 0 {
 					for _, pn := range strings.Split(strings.TrimSuffix(strings.TrimSpace(rest[k+1:]), ")"), ",") {
 						if pn = strings.TrimSpace(pn); pn != "" {
@@ -664,6 +665,15 @@ func parseSpecFile(path, pkg string) (*SpecFile, error) {
 					}
 				}
 			}
+		case "defines":
+			if curF == nil {
+				return nil, fmt.Errorf("%s: defines outside func", l.where)
+			}
+			c, err := parseClause("defines", rest, l.where, curF.Props)
+			if err != nil {
+				return nil, err
+			}
+			curF.Defines = append(curF.Defines, c)
 		case "maypanic":
 			if curF == nil {
 				return nil, fmt.Errorf("%s: maypanic outside func", l.where)
